@@ -79,7 +79,13 @@ func (s *solo) pump() {
 
 func (s *solo) checkQuestionIDFresh(id uint32, what string) {
 	if old := s.pa[id]; old != nil {
-		s.violate("C06/question-id-reuse", fmt.Sprintf("%s re-uses question id %d (previous use: returned=%v finishSeen=%v)", what, id, old.returned, old.finSeen), s.log.Tail(30))
+		sig := "C06/question-id-reuse"
+		if !old.finSeen {
+			// messages are pumped in wire order: a Finish written before
+			// this message would have been seen already
+			sig = "C06/question-id-reuse/finish-never-sent"
+		}
+		s.violate(sig, fmt.Sprintf("%s re-uses question id %d (previous use: returned=%v finishSeen=%v)", what, id, old.returned, old.finSeen), s.log.Tail(30))
 		delete(s.pa, id)
 	}
 }
